@@ -57,6 +57,34 @@ def run(run, scr, tier, seed, only=None):
         hs = [h for h in hs if any(o in h.name for o in only)]
     run.functions += ['src/conversion.rs::bit_unpack (a=b=eta in {2,4})', 'src/helpers.rs::is_in_range']
     run.assumptions += TRUSTED + ['sk_decode applies bit_unpack(eta,eta) section by section with no other acceptance test on s1/s2 (E2 skeleton of sk_decode in C09/C08)']
+    # E2: sk_decode hands every s1 / s2 section to bit_unpack with (eta, eta) (and t0 with (2^12 - 1, 2^12)), all three sets
+    import mir, layout, e2
+    lres = []
+    try:
+        layout.run(mir.parse(mir.dump(scr, checked=True)), lres)
+        run.functions.append('MIR sk_decode (section layout and range parameters per parameter set, loop index symbolic)')
+    except e2.Refuse as ex:
+        run.inconclusive.append('layout obligations: translator refused: ' + str(ex))
+    lbad = []
+    for r in lres:
+        if 'C10' not in r['tags']:
+            continue
+        run.add_query({'name': r['name'], 'engine': 'E2 skeleton + SMT', 'verdict': 'holds' if r['verdict'] == 'holds' else ('sat' if r['verdict'] == 'mismatch' else 'unknown'), 'detail': r['detail'][:300]})
+        if r['verdict'] == 'mismatch':
+            lbad.append(r)
+        elif r['verdict'] == 'refused':
+            run.inconclusive.append(r['name'] + ': ' + r['detail'][:200])
+    res_s, msgs_s = slots_native(scr)
+    run.add_query({'name': 'native workload: every s1/s2 slot x out-of-range field value x {first, middle, last} coefficient through PrivateKey::try_from_bytes (all sets)', 'engine': 'native (confirmation workload)', 'verdict': 'holds' if set(res_s.values()) == {'pass'} else 'sat', 'detail': msgs_s[:3], 'trivial': True}, core=False)
+    if lbad:
+        path = vlib.save_replay('C10', 'slots', {'property': 'C10', 'kind': 'c10_slots', 'mismatches': [(r['name'], r['detail']) for r in lbad], 'native': res_s, 'msgs': msgs_s[:6]})
+        if 'fail' in res_s.values():
+            run.violation('sk_decode-sections', f'{lbad[0]["name"]}: {lbad[0]["detail"][:250]}; native: {msgs_s[:3]}', path)
+        else:
+            run.inconclusive.append(f'sk_decode layout obligation fails but the native slot workload passes: {lbad[0]["detail"][:200]}')
+    elif 'fail' in res_s.values():
+        path = vlib.save_replay('C10', 'slots', {'property': 'C10', 'kind': 'c10_slots', 'native': res_s, 'msgs': msgs_s[:6]})
+        run.violation('sk-acceptance-native', f'private-key acceptance wrong: {msgs_s[:3]} {res_s}', path)
     results = vlib.run_kani(scr, hs)
     run.add_kani_results(results)
     for r in results:
@@ -83,8 +111,27 @@ def run(run, scr, tier, seed, only=None):
         trusted_base=TRUSTED)
 
 
+def slots_native(scr):
+    src = open(os.path.join(vlib.VERIF, 'replay', 'c10_slots.rs')).read()
+    res = {}; msgs = []
+    for rel in (False, True):
+        oc, out = vlib.native_test(scr, src, 'c10_all_slots', release=rel)
+        res['release' if rel else 'dev'] = oc
+        msgs += [l.strip() for l in out.splitlines() if l.startswith('C10 ') or 'VERIF-PROPERTY' in l][:6]
+        if oc == 'error':
+            msgs.append(out[-600:])
+    return res, msgs
+
+
 def replay(run, scr, path):
     p = json.load(open(path))
+    if p.get('kind') == 'c10_slots':
+        res, msgs = slots_native(scr)
+        vlib.log(f'replay {path}: {res} {msgs[:3]}')
+        if 'fail' in res.values():
+            vlib.log(f'VIOLATION property=C10 replay={path}')
+            return 1
+        return 0 if set(res.values()) == {'pass'} else 2
     rep, src = do_replay(run, scr, p['eta'], bytes.fromhex(p['section_hex']))
     vlib.log(f'replay {path}: {rep}')
     if 'fail' in rep.values():
